@@ -1,7 +1,7 @@
 (* Non-interference of a disconnected part over whole runs of the master in simulation time
    (Model/SimTime.v): a stuttering simulation between the base run and the extended run. *)
 From TV Require Import Base Model.Wiring Model.Ticker Model.Component Model.Sim Model.SimTime
-  Proofs.SimP Proofs.FlattenP Proofs.NonInterfP Proofs.FrameP.
+  Proofs.SimP Proofs.FlattenP Proofs.NonInterfP Proofs.FrameP Proofs.AgreeP Proofs.NonInterfNestedP.
 Open Scope Z_scope.
 
 (* ---------- the earliest wakeup *)
@@ -118,43 +118,52 @@ Proof.
   rewrite IH by (intros y Hy; apply H; right; exact Hy). reflexivity.
 Qed.
 
-(* the shape of the extended top level: devices, and system simulations that belong entirely to
-   the added part X (all devices of their subtree are in X; the nesting is a tree: the subtree
-   does not contain the top level) *)
-Definition xkind (cfg' : config) (isX : comp -> bool) (fuel : nat) (ck : comp * ckind) : Prop :=
+(* the shape of the extended top level.  A component is a device, or a system simulation of the
+   added part X (all devices of its subtree in X, all its scheduler levels marked as X levels), or a
+   system simulation of the base (none of its devices in X, none of its levels an X level or the
+   top level, and the two configurations coincide on its subtree) *)
+Definition nkind (cfg cfg' : config) (isX : comp -> bool) (isXL : positive -> bool) (fuel : nat) (ck : comp * ckind) : Prop :=
   match snd ck with
   | KDev => True
-  | KSys lv' => isX (fst ck) = true /\ (forall d, In d (devices_below cfg' fuel lv') -> isX d = true) /\
-                ~ In top (levels_below cfg' fuel lv')
+  | KSys lv' =>
+      (isX (fst ck) = true /\ (forall d, In d (devices_below cfg' fuel lv') -> isX d = true) /\
+       (forall l, In l (levels_below cfg' fuel lv') -> isXL l = true)) \/
+      (isX (fst ck) = false /\ (forall d, In d (devices_below cfg fuel lv') -> isX d = false) /\
+       (forall l, In l (levels_below cfg fuel lv') -> isXL l = false /\ l <> top) /\ same_below cfg cfg' fuel lv')
   end.
 
-Lemma xkind_okkind cfg' devf isX fuel ck :
-  xkind cfg' isX fuel ck -> okkind (on_tick_level cfg' devf fuel) isX top ck.
+Lemma nkind_okkind2 cfg cfg' devf isX isXL fuel ck :
+  nkind cfg cfg' isX isXL fuel ck ->
+  okkind2 (on_tick_level cfg devf fuel) (on_tick_level cfg' devf fuel) isX isXL top ck.
 Proof.
-  unfold xkind, okkind. destruct (snd ck) as [|lv']; [auto|]. intros [Hc [Hd Ht]]. split; [exact Hc|].
-  intros t chg s. pose proof (on_tick_level_framed cfg' devf fuel lv' t chg s) as H.
-  destruct (on_tick_level cfg' devf fuel lv' t chg s) as [[[s2 o] ca] ob]. destruct H as [A [B C]].
-  split; [|split].
-  - intros c Hc0. apply A. intros Hi. rewrite (Hd c Hi) in Hc0. discriminate.
-  - apply B. exact Ht.
-  - intros o0 Ho. apply Hd. apply C. exact Ho.
+  unfold nkind, okkind2. destruct (snd ck) as [|lv']; [auto|]. intros [[Hc [Hd Hl]]|[Hc [Hd [Hl Hsb]]]].
+  - left. split; [exact Hc|]. exists (devices_below cfg' fuel lv'), (levels_below cfg' fuel lv'). split; [exact Hd|]. split; [exact Hl|].
+    intros t chg s. apply (on_tick_level_framed cfg' devf fuel lv' t chg s).
+  - right. split; [exact Hc|]. exists (devices_below cfg fuel lv'), (levels_below cfg fuel lv'). split; [exact Hd|]. split; [exact Hl|].
+    destruct (below_eq cfg cfg' fuel lv' Hsb) as [EL ED]. split; [|split].
+    + intros t chg s. apply (on_tick_level_framed cfg devf fuel lv' t chg s).
+    + intros t chg s. pose proof (on_tick_level_framed cfg' devf fuel lv' t chg s) as H. rewrite EL, ED in H. exact H.
+    + intros t chg s s' Hag. apply (on_tick_level_agree cfg cfg' devf fuel lv' Hsb t chg s s' Hag).
 Qed.
 
 Section Run.
 Variables cfg cfg' : config.
 Variable devf : devfun.
 Variable isX : comp -> bool.
+Variable isXL : positive -> bool.
 Hypothesis Hord : l_order (level_of cfg top) = filter (fun ck : comp * ckind => negb (isX (fst ck))) (l_order (level_of cfg' top)).
 Hypothesis Hcon : l_conns (level_of cfg top) = filter (oldc isX) (l_conns (level_of cfg' top)).
 Variable fuel : nat.
-Hypothesis Hk : forall ck, In ck (l_order (level_of cfg' top)) -> xkind cfg' isX fuel ck.
+Hypothesis Hk : forall ck, In ck (l_order (level_of cfg' top)) -> nkind cfg cfg' isX isXL fuel ck.
 Hypothesis Hsep : forall k, In k (l_conns (level_of cfg' top)) -> isX (out_comp k) = isX (in_comp k).
 Hypothesis Hext : isX ext_id = false.
 Hypothesis Hexp : isX exp_id = false.
+Hypothesis HXL : isXL top = false.
 Variable h : Z.
 
-Lemma Hk_ok : forall ck, In ck (l_order (level_of cfg' top)) -> okkind (on_tick_level cfg' devf fuel) isX top ck.
-Proof. intros ck Hi. apply xkind_okkind. apply Hk. exact Hi. Qed.
+Lemma Hk_ok : forall ck, In ck (l_order (level_of cfg' top)) ->
+  okkind2 (on_tick_level cfg devf fuel) (on_tick_level cfg' devf fuel) isX isXL top ck.
+Proof. intros ck Hi. apply nkind_okkind2. apply Hk. exact Hi. Qed.
 
 Definition pre_tick (s : sstate) (when : Z) (roots : list comp) : sstate :=
   log_tick (set_wake s top (filter (fun e : comp * Z => negb (memb (fst e) roots)) (wake_of s top))) top when roots.
@@ -163,34 +172,48 @@ Lemma wake_of_pre_tick s when roots :
   wake_of (pre_tick s when roots) top = filter (fun e : comp * Z => negb (memb (fst e) roots)) (wake_of s top).
 Proof. unfold pre_tick, log_tick, wake_of. cbn [s_wake]. apply (wake_of_set_wake s top). Qed.
 
-Lemma srel_prepare s s' when roots roots' :
-  srel isX top s s' -> (forall c, isX c = false -> memb c roots' = memb c roots) ->
-  srel isX top (pre_tick s when roots) (pre_tick s' when roots').
+Lemma lrel_pre_tick s s' when roots when' roots' : lrel isXL top s s' -> lrel isXL top (pre_tick s when roots) (pre_tick s' when' roots').
 Proof.
-  intros [Hdc [Hn Hw]] Hr. split; [exact Hdc|]. split; [exact Hn|].
+  intros H l Hl Hne. destruct (H l Hl Hne) as [A [B C]]. split; [|split; [exact B | exact C]].
+  unfold pre_tick. change (wake_of (log_tick ?x top ?t ?r) l) with (wake_of x l).
+  rewrite !wake_of_set_wake_other by exact Hne. exact A.
+Qed.
+
+Lemma lrel_pre_tick_r s s' when' roots' : lrel isXL top s s' -> lrel isXL top s (pre_tick s' when' roots').
+Proof.
+  intros H l Hl Hne. destruct (H l Hl Hne) as [A [B C]]. split; [|split; [exact B | exact C]].
+  unfold pre_tick. change (wake_of (log_tick ?x top ?t ?r) l) with (wake_of x l).
+  rewrite wake_of_set_wake_other by exact Hne. exact A.
+Qed.
+
+Lemma srel_prepare s s' when roots roots' :
+  srel2 isX isXL top s s' -> (forall c, isX c = false -> memb c roots' = memb c roots) ->
+  srel2 isX isXL top (pre_tick s when roots) (pre_tick s' when roots').
+Proof.
+  intros [[Hdc [Hn Hw]] Hl] Hr. split; [|apply lrel_pre_tick; exact Hl]. split; [exact Hdc|]. split; [exact Hn|].
   rewrite !wake_of_pre_tick, <- Hw. apply (filter_remove_commute isX roots roots'). exact Hr.
 Qed.
 
 Lemma srel_stutter s s' when roots' :
-  srel isX top s s' -> (forall c, isX c = false -> memb c roots' = false) ->
-  srel isX top s (pre_tick s' when roots').
+  srel2 isX isXL top s s' -> (forall c, isX c = false -> memb c roots' = false) ->
+  srel2 isX isXL top s (pre_tick s' when roots').
 Proof.
-  intros [Hdc [Hn Hw]] Hr. split; [exact Hdc|]. split; [exact Hn|].
+  intros [[Hdc [Hn Hw]] Hl] Hr. split; [|apply lrel_pre_tick_r; exact Hl]. split; [exact Hdc|]. split; [exact Hn|].
   rewrite wake_of_pre_tick, (filter_remove_commute isX [] roots') by (intros c Hc; rewrite (Hr c Hc); reflexivity).
   fold (oldk isX). unfold oldk in Hw. unfold oldk. rewrite Hw. apply filter_all_true. reflexivity.
 Qed.
 
 Lemma loop_sim : forall n' s s' ob' s1' o1' fin',
-  srel isX top s s' ->
+  srel2 isX isXL top s s' ->
   sim_loop cfg' devf n' fuel h s' ob' = (s1', o1', fin') ->
   exists n s1 fin, (n <= n')%nat /\
     sim_loop cfg devf n fuel h s (filter (notX isX) ob') = (s1, filter (notX isX) o1', fin) /\
-    srel isX top s1 s1' /\ (fin' = true -> fin = true).
+    srel2 isX isXL top s1 s1' /\ (fin' = true -> fin = true).
 Proof.
   induction n' as [|k IH]; intros s s' ob' s1' o1' fin' Hs Hrun.
   - cbn [sim_loop] in Hrun. inversion Hrun; subst. exists 0%nat, s, false. split; [lia|]. split; [reflexivity|]. split; [exact Hs | discriminate].
   - cbn [sim_loop] in Hrun.
-    assert (Hw : filter (oldk isX) (wake_of s' top) = wake_of s top) by (destruct Hs as [_ [_ Hw]]; exact Hw).
+    assert (Hw : filter (oldk isX) (wake_of s' top) = wake_of s top) by (destruct Hs as [[_ [_ Hw]] _]; exact Hw).
     pose proof (first_wakeups_spec (wake_of s' top)) as SP'.
     destruct (first_wakeups (wake_of s' top)) as [[m' roots']|] eqn:E'.
     2: { inversion Hrun; subst. exists 1%nat, s, true. split; [lia|]. split; [|split; [exact Hs | reflexivity]].
@@ -207,10 +230,10 @@ Proof.
     assert (Hstut : (forall c, isX c = false -> memb c roots' = false) ->
                     exists n s1 fin, (n <= S k)%nat /\
                       sim_loop cfg devf n fuel h s (filter (notX isX) ob') = (s1, filter (notX isX) o1', fin) /\
-                      srel isX top s1 s1' /\ (fin' = true -> fin = true)).
+                      srel2 isX isXL top s1 s1' /\ (fin' = true -> fin = true)).
     { intros Hr.
-      pose proof (tick_noninterference cfg cfg' devf (on_tick_level cfg devf fuel) (on_tick_level cfg' devf fuel) isX top m' [] roots' []
-                    s (pre_tick s' m' roots') Hord Hcon Hk_ok Hsep Hext Hexp) as Hn.
+      pose proof (tick_noninterference2 cfg cfg' devf (on_tick_level cfg devf fuel) (on_tick_level cfg' devf fuel) isX isXL top m' [] roots' []
+                    s (pre_tick s' m' roots') Hord Hcon Hk_ok Hsep Hext Hexp HXL) as Hn.
       cbv zeta in Hn. rewrite tick_empty, Et' in Hn.
       destruct Hn as [Hs2 [_ Ho]]; [intros c Hc; rewrite (Hr c Hc); reflexivity | apply srel_stutter; assumption |].
       destruct (IH s s2' (ob' ++ o') s1' o1' fin' Hs2 Hrun) as [n [s1 [fin [Hle [Hb [Hr1 Hf]]]]]].
@@ -220,8 +243,8 @@ Proof.
       * subst m.
         assert (Hr : forall c, isX c = false -> memb c roots' = memb c roots).
         { apply (roots_same isX (wake_of s' top) m'); [exact E' | rewrite Hw; exact E]. }
-        pose proof (tick_noninterference cfg cfg' devf (on_tick_level cfg devf fuel) (on_tick_level cfg' devf fuel) isX top m' roots roots' []
-                      (pre_tick s m' roots) (pre_tick s' m' roots') Hord Hcon Hk_ok Hsep Hext Hexp Hr (srel_prepare s s' m' roots roots' Hs Hr)) as Hn.
+        pose proof (tick_noninterference2 cfg cfg' devf (on_tick_level cfg devf fuel) (on_tick_level cfg' devf fuel) isX isXL top m' roots roots' []
+                      (pre_tick s m' roots) (pre_tick s' m' roots') Hord Hcon Hk_ok Hsep Hext Hexp HXL Hr (srel_prepare s s' m' roots roots' Hs Hr)) as Hn.
         cbv zeta in Hn. rewrite Et' in Hn.
         destruct (tick_with cfg devf (on_tick_level cfg devf fuel) top m' roots [] (pre_tick s m' roots)) as [[s2 out] o] eqn:Et.
         destruct Hn as [Hs2 [_ Ho]].
@@ -250,13 +273,15 @@ Section Whole.
 Variables cfg cfg' : config.
 Variable devf : devfun.
 Variable isX : comp -> bool.
+Variable isXL : positive -> bool.
 Hypothesis Hord : l_order (level_of cfg top) = filter (fun ck : comp * ckind => negb (isX (fst ck))) (l_order (level_of cfg' top)).
 Hypothesis Hcon : l_conns (level_of cfg top) = filter (oldc isX) (l_conns (level_of cfg' top)).
 Variable fuel : nat.
-Hypothesis Hk : forall ck, In ck (l_order (level_of cfg' top)) -> xkind cfg' isX fuel ck.
+Hypothesis Hk : forall ck, In ck (l_order (level_of cfg' top)) -> nkind cfg cfg' isX isXL fuel ck.
 Hypothesis Hsep : forall k, In k (l_conns (level_of cfg' top)) -> isX (out_comp k) = isX (in_comp k).
 Hypothesis Hext : isX ext_id = false.
 Hypothesis Hexp : isX exp_id = false.
+Hypothesis HXL : isXL top = false.
 
 Lemma memb_map_fst_filter c (l : list (comp * ckind)) : isX c = false ->
   memb c (map fst l) = memb c (map fst (filter (fun ck : comp * ckind => negb (isX (fst ck))) l)).
@@ -269,24 +294,24 @@ Qed.
 
 (* whole runs from start-up: when the extended simulation has run to completion (nothing is
    pending up to the horizon), so has the base simulation with the same number of steps, and
-   every base device has observed exactly the same sequence *)
+   every base device -- at any depth -- has observed exactly the same sequence *)
 Theorem run_noninterference n initial h s1' o1' :
   sim_run cfg' devf n fuel initial h = (s1', o1', true) ->
-  exists s1, sim_run cfg devf n fuel initial h = (s1, filter (notX isX) o1', true) /\ srel isX top s1 s1'.
+  exists s1, sim_run cfg devf n fuel initial h = (s1, filter (notX isX) o1', true) /\ srel2 isX isXL top s1 s1'.
 Proof.
   unfold sim_run. intros Hrun.
   set (roots := map fst (l_order (level_of cfg top))). set (roots' := map fst (l_order (level_of cfg' top))) in *.
   assert (Hr : forall c, isX c = false -> memb c roots' = memb c roots).
   { intros c Hc. unfold roots, roots'. rewrite Hord. apply memb_map_fst_filter. exact Hc. }
-  assert (Hs0 : srel isX top (log_tick (set_wake s_init top []) top initial roots) (log_tick (set_wake s_init top []) top initial roots')).
-  { split; [intros; reflexivity|]. split; [intros; reflexivity | reflexivity]. }
-  pose proof (tick_noninterference cfg cfg' devf (on_tick_level cfg devf fuel) (on_tick_level cfg' devf fuel) isX top initial roots roots' []
-                _ _ Hord Hcon (fun ck Hi => xkind_okkind cfg' devf isX fuel ck (Hk ck Hi)) Hsep Hext Hexp Hr Hs0) as Hn.
+  assert (Hs0 : srel2 isX isXL top (log_tick (set_wake s_init top []) top initial roots) (log_tick (set_wake s_init top []) top initial roots')).
+  { split; [split; [intros; reflexivity|]; split; [intros; reflexivity | reflexivity]|]. intros l _ _. repeat split; reflexivity. }
+  pose proof (tick_noninterference2 cfg cfg' devf (on_tick_level cfg devf fuel) (on_tick_level cfg' devf fuel) isX isXL top initial roots roots' []
+                _ _ Hord Hcon (fun ck Hi => nkind_okkind2 cfg cfg' devf isX isXL fuel ck (Hk ck Hi)) Hsep Hext Hexp HXL Hr Hs0) as Hn.
   cbv zeta in Hn. unfold tick_level in *.
   destruct (tick_with cfg' devf (on_tick_level cfg' devf fuel) top initial roots' [] _) as [[s0' out'] ob'].
   destruct (tick_with cfg devf (on_tick_level cfg devf fuel) top initial roots [] _) as [[s0 out] ob].
   destruct Hn as [Hs [_ Ho]].
-  destruct (loop_sim cfg cfg' devf isX Hord Hcon fuel Hk Hsep Hext Hexp h n s0 s0' ob' s1' o1' true Hs Hrun)
+  destruct (loop_sim cfg cfg' devf isX isXL Hord Hcon fuel Hk Hsep Hext Hexp HXL h n s0 s0' ob' s1' o1' true Hs Hrun)
     as [n0 [s1 [fin [Hle [Hb [Hs1 Hf]]]]]].
   rewrite (Hf eq_refl) in Hb. rewrite Ho in Hb. exists s1. split; [|exact Hs1].
   apply (sim_loop_complete_mono cfg devf fuel h n0 _ _ _ _ Hb n Hle).
